@@ -14,7 +14,7 @@
    = the low half.  KnownClass_F4_* is the class of inputs on which the program as it stands records a
    wrong user id (uid <> gid while the site takes the high half); it is EMPTY once the site is
    repaired, and then C06_redirect_and_record is the full-strength statement. *)
-From GPA Require Import Ebpf EbpfProofs.
+From GPA Require Import Ebpf EbpfProofs EbpfFaults EbpfFaultsProofs.
 
 (* ---- redirect and record ---------------------------------------------------------------- *)
 (* A TCP connect by a non-exempt task to an address listed in the policy (under the key the AGENT
@@ -234,6 +234,100 @@ Theorem C06_endpoint_constants :
   ip_to_string Consts.imds_ip_network_byte_order = Consts.imds_ip.
 Proof. exact endpoint_strings. Qed.
 Print Assumptions C06_endpoint_constants.
+
+(* ---- failing map helper calls (Model/EbpfFaults.v) --------------------------------------- *)
+(* The hooks at per-helper-call granularity: [f n = true] = the n-th map helper call of the run, if it
+   is an update or a delete, fails and has no effect (lookups cannot fail).  Return codes are handled as
+   the C does (only logged). *)
+
+(* fail-closed: for EVERY failure oracle a protected connect of a non-exempt process is diverted to the
+   proxy listener; it is never passed on un-diverted *)
+Theorem C06_fail_closed : forall (f : oracle) sh s t ip port local_port,
+  wlookup (destination_entry_from_ipv4 ip port) (policy s) =
+    Some (destination_entry_from_ipv4 (string_to_ip PROXY_AGENT_IP) local_port) ->
+  skipped s t = false ->
+  snd (fst (connect4_f f sh s t (connect_ctx ip port IPPROTO_TCP))) =
+    connect_ctx Consts.proxy_agent_ip_network_byte_order local_port IPPROTO_TCP.
+Proof. exact fail_closed_agent. Qed.
+Print Assumptions C06_fail_closed.
+
+Theorem C06_fail_closed_any_value : forall (f : oracle) sh s t ctx pol,
+  wlookup (c_destination_entry (sa_ip ctx) (sa_port ctx) (sa_proto ctx)) (policy s) = Some pol ->
+  skipped s t = false ->
+  snd (fst (connect4_f f sh s t ctx)) = rewritten pol ctx /\ snd (connect4_f f sh s t ctx) = PROCEED.
+Proof. exact fail_closed. Qed.
+Print Assumptions C06_fail_closed_any_value.
+
+(* for every oracle a connect that is not protected keeps its address (and all maps) *)
+Theorem C06_untouched_under_failures : forall (f : oracle) sh s t ip port proto,
+  (u32 proto = IPPROTO_TCP -> wlookup (destination_entry_from_ipv4 ip port) (policy s) = None \/ skipped s t = true) ->
+  (u32 proto <> IPPROTO_TCP -> policy_keys_tcp s \/ skipped s t = true) ->
+  kstep_f f sh s (EConnect4 t (connect_ctx ip port proto)) =
+  (s, [PROCEED; sa_ip (connect_ctx ip port proto); sa_port (connect_ctx ip port proto)]).
+Proof. exact untouched_f_agent. Qed.
+Print Assumptions C06_untouched_under_failures.
+
+(* refinement: with no failing call the refined hooks, events and script lines ARE the atomic ones, so
+   every theorem above is a theorem about the refined model at the all-false oracle *)
+Theorem C06_refinement : forall sh,
+  (forall s t ctx, connect4_f no_fail sh s t ctx = connect4 sh s t ctx) /\
+  (forall s t skc, tcp_v4_connect_f no_fail sh s t skc = tcp_v4_connect sh s t skc) /\
+  (forall s ev, kstep_f no_fail sh s ev = kstep sh s ev) /\
+  (forall w l, lstep_f no_fail sh w l = lstep sh w l).
+Proof.
+  intros sh. exact (conj (connect4_refines sh) (conj (tcp_v4_connect_refines sh) (conj (kstep_refines sh) (lstep_refines sh)))).
+Qed.
+Print Assumptions C06_refinement.
+
+(* what a failure can cost.  connect4: the hand-over entry is missing exactly when its update (call 3)
+   fails; nothing else changes *)
+Theorem C06_failure_cost_connect4 : forall sh (f : oracle) s t ctx pol,
+  wlookup (c_destination_entry (sa_ip ctx) (sa_port ctx) (sa_proto ctx)) (policy s) = Some pol ->
+  skipped s t = false ->
+  local (fst (fst (connect4_f f sh s t ctx))) =
+    (if f 3%nat then local s else local (fst (fst (connect4 sh s t ctx)))) /\
+  policy (fst (fst (connect4_f f sh s t ctx))) = policy s /\
+  skip (fst (fst (connect4_f f sh s t ctx))) = skip s /\
+  audit (fst (fst (connect4_f f sh s t ctx))) = audit s.
+Proof. exact connect4_f_local. Qed.
+Print Assumptions C06_failure_cost_connect4.
+
+(* the kprobe with a pending entry: the record is written iff the audit_map update (call 3) succeeds and
+   is then exactly the atomic program's; the entry is consumed iff the delete (call 4) succeeds -- a failed
+   delete leaves the hand-over entry behind for the thread's next connect *)
+Theorem C06_failure_cost_tcp_connect : forall (f : oracle) sh s t fam n d p le,
+  u16 fam = AF_INET -> skipped s t = false ->
+  wlookup (thread_key t) (local s) = Some le ->
+  let s' := fst (tcp_v4_connect_f f sh s t (mk_sock fam n d p)) in
+  audit s' = (if f 3%nat then audit s else audit (fst (tcp_v4_connect sh s t (mk_sock fam n d p)))) /\
+  wlookup (thread_key t) (local s') = (if f 4%nat then Some le else None) /\
+  policy s' = policy s /\ skip s' = skip s.
+Proof. exact tcp_connect_f_pending. Qed.
+Print Assumptions C06_failure_cost_tcp_connect.
+
+(* whatever else fails: when the two updates succeed the record states the caller and the original address *)
+Theorem C06_record_under_failures : forall (f1 f2 : oracle) sh s t ctx pol num,
+  wlookup (c_destination_entry (sa_ip ctx) (sa_port ctx) (sa_proto ctx)) (policy s) = Some pol ->
+  skipped s t = false ->
+  f1 3%nat = false -> f2 3%nat = false ->
+  let s1 := fst (fst (connect4_f f1 sh s t ctx)) in
+  let s3 := fst (kstep_f f2 sh s1 (ETcpConnect t KERNEL_AF_INET num (de_ipv4 pol) (de_port pol))) in
+  wlookup (c_audit_key (sa_proto ctx) (u16 num)) (audit s3) =
+    Some (c_audit_entry (uid_at (sh_connect4 sh) t) (pid_of t)
+            (if uid_at (sh_connect4 sh) t =? 0 then 1 else 0) (sa_ip ctx) (sa_port ctx)).
+Proof. exact record_under_failures. Qed.
+Print Assumptions C06_record_under_failures.
+
+(* the losses are real: diverted but NO record when connect4's update or the kprobe's update fails; a
+   record plus a stale hand-over entry when the kprobe's delete fails *)
+Theorem C06_losses_under_failures :
+  let proxy := connect_ctx Consts.proxy_agent_ip_network_byte_order Consts.proxy_agent_port IPPROTO_TCP in
+  (exists e, loss_witness no_fail no_fail = (proxy, Some e, None)) /\
+  loss_witness (fail_at 3) no_fail = (proxy, None, None) /\
+  loss_witness no_fail (fail_at 3) = (proxy, None, None) /\
+  (exists e le, loss_witness no_fail (fail_at 4) = (proxy, Some e, Some le)).
+Proof. exact losses. Qed.
+Print Assumptions C06_losses_under_failures.
 
 (* ---- non-vacuity ------------------------------------------------------------------------- *)
 (* a concrete protected connect between two other threads' hooks; the repaired program records the
